@@ -26,6 +26,9 @@ SCEN = [
 QUICK = {"call_call_same_cold", "call_clear_cold", "call_clear_warm", "call_reduce_warm", "shelve_reduce_warm", "call_call_clear", "threads_call_call_clear", "expires_call_reduce", "reduce_clear_orphan", "clearall_call", "call_call_clearall_cold"}
 
 
+CODE_TEXTS = {}
+
+
 def spec_of(base, k, ver, opts, ops):
     return dict(moddir=os.path.join(base, "mod_v%d" % ver), ver=ver, log=os.path.join(base, "exec%d.log" % k), opts=opts, ops=ops)
 
@@ -64,6 +67,10 @@ def run_schedule(args):
                 exp = ["v%d" % ver, op[1], 0]
                 if l["value"] != exp and not (op[0] == "shelveref" and l["value"] == "evicted"):
                     problems.append({"participant": k, "kind": "wrong_value", "op": op, "got": l["value"]})
+    snap = None
+    if sc[3] is not None and CODE_TEXTS:
+        try: snap = cachefs_model.snapshot(root, {3: "a", 4: "b"}, CODE_TEXTS)
+        except Exception as e: snap = "snapshot-error: " + repr(e)[:100]
     # afterwards: one complete result under every final name, and the directory is still usable
     rc, lines, err = fsctl.run_plain(root, spec_of(cdir, 9, parts[0][0], {}, [["loadall"], ["call", 3], ["call", 4]]))
     if rc != 0 or len(lines) != 3:
@@ -75,7 +82,7 @@ def run_schedule(args):
                 problems.append({"participant": "after", "kind": "unusable_afterwards", "line": l})
     shutil.rmtree(cdir, ignore_errors=True)
     return {"scenario": name, "schedule": sched, "seed": seed, "actors": [t[0][0] for t in trace], "ncalls": len(trace),
-            "trace": [t[0] for t in trace], "problems": problems}
+            "trace": [t[0] for t in trace], "problems": problems, "snapshot": snap}
 
 
 def model_schedules(c, sc, num):
@@ -96,6 +103,14 @@ def model_schedules(c, sc, num):
 def body(c):
     cachefs_model.run_c11(c)
     scen = [s for s in SCEN if (not c.quick) or s[0] in QUICK]
+    # reference texts of the stored source (to classify func_code.py) and the final states of the model per scenario
+    refb = common.scratch("c11_ref")
+    for v in (1, 2):
+        rd = os.path.join(refb, "v%d" % v); os.makedirs(rd)
+        fsctl.run_plain(rd, spec_of(refb, 7, v, {}, [["call", 3]]))
+        CODE_TEXTS[v] = open(os.path.join(rd, "joblib", "cachedmod", "f", "func_code.py"), "rb").read()
+    shutil.rmtree(refb, ignore_errors=True)
+    finals = {s[0]: cachefs_model.final_states(c, s[0], **s[3]) for s in scen if s[3] is not None and (not c.quick or len(s[3]["ops"]) <= 2)}
     jobs = []; bases = []
     nrand = 4 if c.quick else 60
     nsim = 6 if c.quick else 80
@@ -146,6 +161,15 @@ def body(c):
         results = list(ex.map(run_schedule, jobs))
     for b in bases: shutil.rmtree(b, ignore_errors=True)
     per = collections.Counter()
+    nfin = 0; nout = 0
+    for r in results:
+        if r.get("snapshot") is not None and r["scenario"] in finals and not r["problems"]:
+            nfin += 1
+            if r["snapshot"] not in finals[r["scenario"]]:
+                nout += 1
+                if nout <= 4:
+                    print("DRIFT property=C11 final state of the real directory is not a final state of CacheFS: scenario=%s schedule=%s snapshot=%s" % (r["scenario"], str(r["schedule"])[:80], str(r["snapshot"])[:400]))
+    c.extra["final_states_compared_with_model"] = nfin; c.extra["final_states_not_in_model"] = nout; c.drift += nout
     for r in results:
         c.evaluations += 1; per[r["scenario"]] += 1
         sw = sum(1 for x, y in zip(r["actors"], r["actors"][1:]) if x != y)
